@@ -180,9 +180,27 @@ fn hts_stage(sh: &Shadow, rng: &mut Rng, dynamic: bool, obs_ok: bool) -> StageSp
                 StageSpec::DynSkip(l)
             }
         }
-        (0, _) => StageSpec::DynHeadInit(n, l),
-        (1, _) => StageSpec::DynTailInit(n, l),
-        (_, _) => StageSpec::DynSkipInit(n, l),
+        (0, _) => {
+            if obs_ok && rng.chance(1, 3) {
+                StageSpec::ObsDynHeadInit(n, l)
+            } else {
+                StageSpec::DynHeadInit(n, l)
+            }
+        }
+        (1, _) => {
+            if obs_ok && rng.chance(1, 3) {
+                StageSpec::ObsDynTailInit(n, l)
+            } else {
+                StageSpec::DynTailInit(n, l)
+            }
+        }
+        (_, _) => {
+            if obs_ok && rng.chance(1, 3) {
+                StageSpec::ObsDynSkipInit(n, l)
+            } else {
+                StageSpec::DynSkipInit(n, l)
+            }
+        }
     }
 }
 
@@ -245,7 +263,16 @@ pub fn gen_case(prop: &str, rng: &mut Rng) -> Case {
     };
     let capacity = *rng.pick(p.caps);
     let mut sh = Shadow { len: 0, tx: None, consumers: 0, sources: 0, dropped: false, next_uid: 1, seen: Vec::new() };
-    let initial: Vec<V> = if rng.chance(1, 2) { (0..rng.below(6)).map(|_| value(&mut sh, rng)).collect() } else { Vec::new() };
+    // mostly small vectors; one run in twelve starts beyond imbl's inline / single-chunk
+    // representations (different code paths for clone, ptr_eq, split, append)
+    let big = rng.chance(1, 12);
+    let initial: Vec<V> = if big {
+        (0..12 + rng.below(70)).map(|_| value(&mut sh, rng)).collect()
+    } else if rng.chance(1, 2) {
+        (0..rng.below(6)).map(|_| value(&mut sh, rng)).collect()
+    } else {
+        Vec::new()
+    };
     sh.len = initial.len();
     let config = Config {
         capacity,
@@ -307,7 +334,7 @@ pub fn gen_case(prop: &str, rng: &mut Rng) -> Case {
             0 => {
                 let n = sh.cur_len();
                 let mut w = w_ops;
-                if n >= 8 {
+                if n >= if big { 90 } else { 8 } {
                     w[0] = 0;
                     w[1] = 0;
                     w[4] = 0;
